@@ -1,4 +1,4 @@
-// Tridiagonal kinds (C05): tri.ctor tri.views tri.sets tri.arith tri.mul tri.solve tri.empty
+// Tridiagonal kinds (C05): tri.ctor tri.views tri.sets tri.arith tri.mul tri.solve tri.empty tri.hist
 // Every API call runs under its own catch_unwind: Tridiagonal's explicit panics all carry
 // "Tridiagonal error"/"Tridiagonal matrix" (one of them reads "index out of bounds", which the
 // generic classifier would take for a Vec bounds failure), so the class is decided here.
@@ -44,6 +44,60 @@ fn read3<T: Elt>(a: &mut Args) -> (Vec<T>, Vec<T>, Vec<T>) {
     (s, m, p)
 }
 
+// the views of one matrix: accessors, every (i,j) in [0,n]x[0,n], convert, transpose (both forms), convert of the transpose, det
+fn do_views<T: Elt>(t: &Tridiagonal<T>, out: &mut Out) {
+    let snap = toks(t);
+    dump(out, t);
+    let n = t.size();
+    for i in 0..n + 1 { for j in 0..n + 1 {
+        caught(out, |o| { let x = t[(i, j)]; o.s(&x); });
+    } }
+    caught(out, |o| { let d = t.convert(); o.m(&d); });
+    unchanged(t, &snap, "index/convert");
+    let tt = t.transpose();
+    unchanged(t, &snap, "transpose");
+    dump(out, &tt);
+    let mut t2 = t.clone(); t2.transpose_in_place();
+    if toks(&t2) != toks(&tt) { panic!("harness: forms differ (transpose / transpose_in_place)"); }
+    caught(out, |o| { let d = tt.convert(); o.m(&d); });
+    caught(out, |o| { let d = t.det(); o.s(&d); });
+    unchanged(t, &snap, "det");
+}
+
+fn do_mul<T: Elt>(t: &Tridiagonal<T>, v: &Vector<T>, out: &mut Out) {
+    let (snap, vs) = (toks(t), vtoks(v));
+    let r = caught(out, |o| { let r = t * v; o.v(&r); r });
+    unchanged(t, &snap, "&T * &v");
+    if vtoks(v) != vs { panic!("harness: operand mutated by &T * &v"); }
+    let mut o2 = Out::new();
+    let r2 = caught(&mut o2, |_| t.clone() * v.clone());
+    match (r, r2) {
+        (Some(x), Some(y)) => if vtoks(&x) != vtoks(&y) { panic!("harness: owned/borrowed forms differ (T*v)"); },
+        (None, None) => {},
+        _ => panic!("harness: owned/borrowed forms differ (T*v panics)"),
+    }
+}
+
+fn do_solve<T: Elt>(t: &Tridiagonal<T>, r: &Vector<T>, out: &mut Out) {
+    let (snap, rs) = (toks(t), vtoks(r));
+    let res = catch_unwind(AssertUnwindSafe(|| t.solve(r)));
+    match res {
+        Ok(u) => out.v(&u),
+        Err(_) => {
+            let msg = crate::LAST_PANIC.with(|p| p.borrow().clone());
+            let cls = class_of(&msg);
+            if cls == "harness" || cls == "ratovf" { panic!("{}", msg); }
+            let code = if msg.contains("zero on leading diagonal") { 1 }
+                       else if msg.contains("zero pivot") { 2 }
+                       else if msg.contains("sizes do not agree") { 3 } else { 0 };
+            out.int(code);
+            out.toks.push(format!("P{}", cls));
+        }
+    }
+    unchanged(t, &snap, "solve");
+    if vtoks(r) != rs { panic!("harness: operand mutated by solve"); }
+}
+
 pub fn run<T: Elt>(kind: &str, a: &mut Args, out: &mut Out) {
     match kind {
         // tri.ctor <which> ...   -> dump or P
@@ -76,22 +130,7 @@ pub fn run<T: Elt>(kind: &str, a: &mut Args, out: &mut Out) {
         "tri.views" => {
             let (s, m, p) = read3::<T>(a);
             let t = match caught(out, |_| Tridiagonal::with_vecs(s, m, p)) { Some(t) => t, None => return };
-            let snap = toks(&t);
-            dump(out, &t);
-            let n = t.size();
-            for i in 0..n + 1 { for j in 0..n + 1 {
-                caught(out, |o| { let x = t[(i, j)]; o.s(&x); });
-            } }
-            caught(out, |o| { let d = t.convert(); o.m(&d); });
-            unchanged(&t, &snap, "index/convert");
-            let tt = t.transpose();
-            unchanged(&t, &snap, "transpose");
-            dump(out, &tt);
-            let mut t2 = t.clone(); t2.transpose_in_place();
-            if toks(&t2) != toks(&tt) { panic!("harness: forms differ (transpose / transpose_in_place)"); }
-            caught(out, |o| { let d = tt.convert(); o.m(&d); });
-            caught(out, |o| { let d = t.det(); o.s(&d); });
-            unchanged(&t, &snap, "det");
+            do_views(&t, out);
         }
         // tri.sets <sub> <main> <sup> (<i> <j> <x>)*
         "tri.sets" => {
@@ -138,40 +177,79 @@ pub fn run<T: Elt>(kind: &str, a: &mut Args, out: &mut Out) {
             let (s, m, p) = read3::<T>(a);
             let v = a.v::<T>();
             let t = match caught(out, |_| Tridiagonal::with_vecs(s, m, p)) { Some(t) => t, None => return };
-            let (snap, vs) = (toks(&t), vtoks(&v));
-            let r = caught(out, |o| { let r = &t * &v; o.v(&r); r });
-            unchanged(&t, &snap, "&T * &v");
-            if vtoks(&v) != vs { panic!("harness: operand mutated by &T * &v"); }
-            let mut o2 = Out::new();
-            let r2 = caught(&mut o2, |_| t.clone() * v.clone());
-            match (r, r2) {
-                (Some(x), Some(y)) => if vtoks(&x) != vtoks(&y) { panic!("harness: owned/borrowed forms differ (T*v)"); },
-                (None, None) => {},
-                _ => panic!("harness: owned/borrowed forms differ (T*v panics)"),
-            }
+            do_mul(&t, &v, out);
         }
         // tri.solve <sub> <main> <sup> <r>   -> solution, or message code + P<class>
         "tri.solve" => {
             let (s, m, p) = read3::<T>(a);
             let r = a.v::<T>();
             let t = match caught(out, |_| Tridiagonal::with_vecs(s, m, p)) { Some(t) => t, None => return };
-            let (snap, rs) = (toks(&t), vtoks(&r));
-            let res = catch_unwind(AssertUnwindSafe(|| t.solve(&r)));
-            match res {
-                Ok(u) => out.v(&u),
-                Err(_) => {
-                    let msg = crate::LAST_PANIC.with(|p| p.borrow().clone());
-                    let cls = class_of(&msg);
-                    if cls == "harness" || cls == "ratovf" { panic!("{}", msg); }
-                    let code = if msg.contains("zero on leading diagonal") { 1 }
-                               else if msg.contains("zero pivot") { 2 }
-                               else if msg.contains("sizes do not agree") { 3 } else { 0 };
-                    out.int(code);
-                    out.toks.push(format!("P{}", cls));
+            do_solve(&t, &r, out);
+        }
+        // tri.hist <ctor> <args> (<op> <args> ;)*
+        //   ctor: vecs s m p | vectors s m p | elements a b c n | new n
+        //   mutating ops answer nothing (P<class> when they panic; the state is then the one before the op):
+        //     set i j x | tip | tr | clone | adds x | subs x | muls x | divs x | neg | scale x | div x | lscale x (f64) |
+        //     addt s m p | subt s m p | resize n
+        //   views answer as the single-shot kinds do: dump | views | mul v | solve r
+        "tri.hist" => {
+            let which = a.word();
+            let built = match which {
+                "vecs" => { let (s, m, p) = read3::<T>(a); caught(out, |_| Tridiagonal::with_vecs(s, m, p)) }
+                "vectors" => { let (s, m, p) = read3::<T>(a);
+                    caught(out, |_| Tridiagonal::with_vectors(Vector::create(s), Vector::create(m), Vector::create(p))) }
+                "elements" => { let (x, y, z) = (a.s::<T>(), a.s::<T>(), a.s::<T>()); let n = a.usize();
+                    caught(out, |_| Tridiagonal::<T>::with_elements(x, y, z, n)) }
+                "new" => { let n = a.usize(); caught(out, |_| Tridiagonal::<T>::new(n)) }
+                _ => panic!("harness: unknown tri.hist constructor {}", which),
+            };
+            let mut t = match built { Some(t) => t, None => return };
+            while a.more() {
+                let op = a.word();
+                match op {
+                    "dump" => dump(out, &t),
+                    "views" => do_views(&t, out),
+                    "mul" => { let v = a.v::<T>(); do_mul(&t, &v, out); }
+                    "solve" => { let r = a.v::<T>(); do_solve(&t, &r, out); }
+                    "set" => { let (i, j) = (a.usize(), a.usize()); let x = a.s::<T>(); caught(out, |_| { t[(i, j)] = x; }); }
+                    "tip" => { caught(out, |_| { t.transpose_in_place(); }); }
+                    "adds" => { let x = a.s::<T>(); caught(out, |_| { t += x; }); }
+                    "subs" => { let x = a.s::<T>(); caught(out, |_| { t -= x; }); }
+                    "muls" => { let x = a.s::<T>(); caught(out, |_| { t *= x; }); }
+                    "divs" => { let x = a.s::<T>(); caught(out, |_| { t /= x; }); }
+                    "resize" => { let n = a.usize(); caught(out, |_| { t.resize(n); }); }
+                    _ => {
+                        // value-returning forms: computed from a clone of the current state, which then replaces it
+                        let snap = toks(&t);
+                        let cur = t.clone();
+                        let r = match op {
+                            "tr" => caught(out, |_| cur.transpose()),
+                            "clone" => caught(out, |_| cur.clone()),
+                            "neg" => caught(out, |_| -cur),
+                            "scale" => { let x = a.s::<T>(); caught(out, |_| cur * x) }
+                            "div" => { let x = a.s::<T>(); caught(out, |_| cur / x) }
+                            "lscale" => { let x = a.s::<T>();
+                                let tb: Box<dyn Any> = Box::new(cur);
+                                let xb: Box<dyn Any> = Box::new(x);
+                                match (tb.downcast::<Tridiagonal<f64>>(), xb.downcast::<f64>()) {
+                                    (Ok(tf), Ok(xf)) => {
+                                        let r = caught(out, |_| *xf * *tf);
+                                        r.map(|r| { let rb: Box<dyn Any> = Box::new(r); *rb.downcast::<Tridiagonal<T>>().ok().expect("harness: lscale type") })
+                                    }
+                                    _ => panic!("harness: lscale exists for f64 only"),
+                                } }
+                            "addt" => { let (s, m, p) = read3::<T>(a);
+                                let t2 = Tridiagonal::with_vecs(s, m, p); caught(out, |_| cur + t2) }
+                            "subt" => { let (s, m, p) = read3::<T>(a);
+                                let t2 = Tridiagonal::with_vecs(s, m, p); caught(out, |_| cur - t2) }
+                            _ => panic!("harness: unknown tri.hist op {}", op),
+                        };
+                        unchanged(&t, &snap, "an operator applied to a clone");
+                        if let Some(r) = r { t = r; }
+                    }
                 }
+                while a.more() { if a.word() == ";" { break; } }
             }
-            unchanged(&t, &snap, "solve");
-            if vtoks(&r) != rs { panic!("harness: operand mutated by solve"); }
         }
         _ => panic!("harness: unknown kind {}", kind),
     }
